@@ -161,7 +161,7 @@ ChanIn(ch, k, allowed) == ~ch.has \/ (k <= Len(ch.v) /\ ch.v[k] \in allowed)
 VertexOK(c, out, v, s, chs) ==
     LET tg == Target(c, s) IN
     /\ PK(c, out.ppos[v + 1]) = PK(c, P(c, s))
-    /\ ("va" \in chs => ChanIn(out.va, v + 1, tg))
+    /\ ("va" \in chs => ChanIn(out.va, v + 1, tg) /\ ChanIn(out.xa, v + 1, tg))
     /\ ("vc" \in chs => ChanIn(out.vc, v + 1, tg))
     /\ ("uv" \in chs => ChanIn(out.uv, v + 1, {c.uvc[g + 1] : g \in tg}))
     /\ ("vn" \in chs => ChanIn(out.vn, v + 1, {c.nc[g + 1] : g \in tg}))
@@ -286,6 +286,7 @@ VertexDataOK(c, out) ==
     \A v \in 1..Len(out.ppos) :
         LET cand == {s \in Slots(c) : PK(c, P(c, s)) = PK(c, out.ppos[v])} IN
         /\ ChanIn(out.va, v, cand)
+        /\ ChanIn(out.xa, v, cand)
         /\ ChanIn(out.vc, v, cand)
         /\ ChanIn(out.uv, v, {c.uvc[s + 1] : s \in cand})
         /\ ChanIn(out.vn, v, {c.nc[s + 1] : s \in cand})
@@ -294,15 +295,45 @@ VertexChannelsAgree(c, out) ==
     Merging(c) \/ c.op = "update_vertices_inv" \/
     \A v \in 1..Len(out.ppos) :
         LET ids == (IF out.va.has /\ v <= Len(out.va.v) THEN {out.va.v[v]} ELSE {})
+                   \cup (IF out.xa.has /\ v <= Len(out.xa.v) THEN {out.xa.v[v]} ELSE {})
                    \cup (IF out.vc.has /\ v <= Len(out.vc.v) THEN {out.vc.v[v]} ELSE {}) IN
         /\ Cardinality(ids) <= 1
         /\ \A s \in ids : s \in Slots(c) /\ ChanIn(out.uv, v, {c.uvc[s + 1]}) /\ ChanIn(out.vn, v, {c.nc[s + 1]})
+
+\* ------------------------------------------------------- derived colours
+\* The colour kind that is not stored is derived by the library from the stored one: a face of a
+\* vertex-coloured mesh reports the mean of its three corner colours, a vertex of a face-coloured mesh the
+\* mean of the faces it is used by (truncated to an integer).  Read through the public accessor after the
+\* operation they must be the colours of the result's own faces / vertices - whatever had been read (and
+\* cached) before the operation.  The tag colours are those of the harness (checks/c07.py FCOL / VCOL).
+VCol(t) == <<(90 + 13 * t) % 256, (31 * t + 7) % 256, (250 + 512 - 9 * t) % 256, 255>>
+FCol(t) == <<(17 * t + 3) % 256, (200 + 256 - 7 * t) % 256, (5 + 29 * t) % 256, 255>>
+DerivedFaceOK(out) ==
+    ~out.dfc.has \/ ~out.vc.has \/ Len(out.vc.v) # Len(out.ppos) \/
+    (Len(out.dfc.v) = Len(out.faces) /\
+     \A k \in 1..Len(out.faces) :
+        LET tg == [j \in 1..3 |-> out.vc.v[out.faces[k][j] + 1]] IN
+        (\E j \in 1..3 : tg[j] < 0) \/
+        \A ch \in 1..4 : out.dfc.v[k][ch] = (VCol(tg[1])[ch] + VCol(tg[2])[ch] + VCol(tg[3])[ch]) \div 3)
+\* vertices used by a face that repeats a slot are left out (how often such a face counts is not specified),
+\* unreferenced vertices too
+RECURSIVE SumCol(_, _, _)
+SumCol(out, S, ch) == IF S = {} THEN 0
+                      ELSE LET k == CHOOSE x \in S : TRUE IN FCol(out.fc.v[k])[ch] + SumCol(out, S \ {k}, ch)
+DerivedVertexOK(out) ==
+    ~out.dvc.has \/ ~out.fc.has \/ Len(out.fc.v) # Len(out.faces) \/
+    (Len(out.dvc.v) = Len(out.ppos) /\
+     \A v \in 1..Len(out.ppos) :
+        LET inc == {k \in 1..Len(out.faces) : (v - 1) \in Range(out.faces[k])} IN
+        inc = {} \/ (\E k \in inc : Cardinality(Range(out.faces[k])) < 3 \/ out.fc.v[k] < 0) \/
+        \A ch \in 1..4 : out.dvc.v[v][ch] = SumCol(out, inc, ch) \div Cardinality(inc))
 
 ChanLen(ch, n) == ~ch.has \/ Len(ch.v) = n
 \* derived colour arrays (read through the public accessors) have one row per element
 CountsOK(c, out) == /\ (out.fcn >= 0 => out.fcn = Len(out.faces))
                     /\ (out.vcn >= 0 => out.vcn = Len(out.ppos))
                     /\ ChanLen(out.va, Len(out.ppos)) /\ ChanLen(out.vc, Len(out.ppos))
+                    /\ ChanLen(out.xa, Len(out.ppos))
                     /\ ChanLen(out.uv, Len(out.ppos)) /\ ChanLen(out.vn, Len(out.ppos))
                     /\ (~ExtraOK(c) => ChanLen(out.fa, Len(out.faces)) /\ ChanLen(out.fc, Len(out.faces)))
 
@@ -335,7 +366,7 @@ SeqChanOK(ch, want) == ~ch.has \/ ch.v = want
 ExactVertsOK(c, out) ==
     LET ev == ExactVerts(c) IN
     /\ out.ppos = [k \in 1..Len(ev) |-> P(c, ev[k])]
-    /\ SeqChanOK(out.va, ev) /\ SeqChanOK(out.vc, ev)
+    /\ SeqChanOK(out.va, ev) /\ SeqChanOK(out.vc, ev) /\ SeqChanOK(out.xa, ev)
     /\ SeqChanOK(out.uv, [k \in 1..Len(ev) |-> c.uvc[ev[k] + 1]])
     /\ SeqChanOK(out.vn, [k \in 1..Len(ev) |-> c.nc[ev[k] + 1]])
 
@@ -392,6 +423,7 @@ Clause(c) ==
     ELSE IF S6 = {} THEN (IF reordered THEN "relative_order" ELSE "vertex_color_at_corner")
     ELSE IF S7 = {} THEN (IF reordered THEN "relative_order" ELSE "texture_uv_at_corner")
     ELSE IF S8 = {} THEN (IF reordered THEN "relative_order" ELSE "vertex_normal_at_corner")
+    ELSE IF \E m \in all : ~DerivedFaceOK(outs[m]) THEN "derived_face_color"
     ELSE IF \E m \in all : ~VertexDataOK(c, outs[m]) THEN "vertex_data_from_other_position"
     ELSE IF \E m \in all : ~VertexChannelsAgree(c, outs[m]) THEN "vertex_channels_disagree"
     ELSE IF HasExactVerts(c) /\ ~ExactVertsOK(c, outs[1]) THEN "vertex_list_exact"
@@ -403,6 +435,7 @@ Clause(c) ==
     ELSE IF IsRoundTrip(c) /\ ~BagEq(CatKeys(c, c.cat[1], FALSE), OrigKeys(c, FALSE)) THEN "split_concat_multiset"
     ELSE IF IsRoundTrip(c) /\ ~BagEq(CatKeys(c, c.cat[1], TRUE), OrigKeys(c, TRUE)) THEN "split_concat_multiset_winding"
     ELSE IF S9 = {} THEN "face_color"
+    ELSE IF \E m \in all : ~DerivedVertexOK(outs[m]) THEN "derived_vertex_color"
     \* last, so that a record is never excused from another clause by this one
     ELSE IF \E m \in all : ~NormalsKept(c, outs[m]) THEN "stored_vertex_normals_dropped"
     ELSE "ok"
